@@ -504,14 +504,23 @@ func (c *resultCodec) Decode(source io.Reader, version primitive.ProtocolVersion
 		if rowsCount, err = primitive.ReadInt(source); err != nil {
 			return nil, fmt.Errorf("cannot read RESULT Rows data length: %w", err)
 		}
-		rows.Data = make(RowSet, rowsCount)
+		if rowsCount < 0 {
+			return nil, fmt.Errorf("invalid RESULT Rows data length: %d", rowsCount)
+		} else if rows.Metadata.ColumnCount < 0 || (rows.Metadata.ColumnCount == 0 && rowsCount > 0) {
+			return nil, fmt.Errorf("invalid RESULT Rows column count: %d", rows.Metadata.ColumnCount)
+		}
+		// the counts come from the wire: grow the row set as rows are actually read
+		rows.Data = make(RowSet, 0)
 		for i := 0; i < int(rowsCount); i++ {
-			rows.Data[i] = make(Row, rows.Metadata.ColumnCount)
+			row := make(Row, 0)
 			for j := 0; j < int(rows.Metadata.ColumnCount); j++ {
-				if rows.Data[i][j], err = primitive.ReadBytes(source); err != nil {
+				var col Column
+				if col, err = primitive.ReadBytes(source); err != nil {
 					return nil, fmt.Errorf("cannot read RESULT Rows data row %d col %d: %w", i, j, err)
 				}
+				row = append(row, col)
 			}
+			rows.Data = append(rows.Data, row)
 		}
 		return rows, nil
 	default:
